@@ -90,7 +90,27 @@ func main() {
 				c = genC01(r, gidx, *tier)
 			}
 			runSolve(e, idx, c, *prop == "C06")
-		case "S01", "S02", "S10", "S14", "T01", "T02", "T10":
+		case "P15":
+			var c *SolveCase
+			if desc != "" {
+				c = &SolveCase{}
+				mustJSON(desc, c)
+				c.P.norm()
+			} else {
+				c = genC15(r, gidx, *tier)
+			}
+			runAmoStruct(e, idx, c)
+		case "P01", "P02":
+			var p *Prob
+			if desc != "" {
+				p = &Prob{}
+				mustJSON(desc, p)
+				p.norm()
+			} else {
+				p = genParse(r, *prop, gidx, *tier)
+			}
+			runParse(e, idx, p)
+		case "S01", "S02", "S10", "S14", "T01", "T02", "T10", "T14":
 			var c *SnapCase
 			if desc != "" {
 				c = &SnapCase{}
